@@ -43,6 +43,10 @@ def run(chk: Check, proj: Project) -> None:
     s9_no_token_lost(chk, proj, m, f)
     s10_same_as_django(chk, proj, m, f)
     s11_string_body_language(chk, proj)
+    from . import C12
+
+    chk.borrow("S12", "malformed tags end in TemplateSyntaxError, not in a crash of the scanner: every text[<index>] read of the quote-aware tag scanner is guarded by a fresh bounds test for that offset (shared with C12-S2b)",
+               lambda sub: C12.s2_subscripts(sub, proj), only=lambda o: "template_parser" in o.construct)
 
 
 def s7_fresh_lexer(chk: Check, proj: Project, m, f) -> bool:
